@@ -255,10 +255,11 @@ def _chi_to_choi(q_oper):
                 copy=False)
 
 
-def _svd_u_to_kraus(U, S, d, dK, indims, outdims):
+def _svd_u_to_kraus(U, S, dO, dI, dK, indims, outdims):
     """
     Given a partial isometry U and a vector of square-roots of singular values
     S obtained from a SVD, produces the Kraus operators represented by U.
+    Each column of U is the column-stacking of a ``dO`` x ``dI`` operator.
 
     Returns
     -------
@@ -267,7 +268,9 @@ def _svd_u_to_kraus(U, S, d, dK, indims, outdims):
     """
     # We use U * S since S is 1-index, such that this is equivalent to
     # U . diag(S), but easier to write down.
-    data = np.array(U * S).reshape((d, d, dK), order='F').transpose((2, 0, 1))
+    data = (
+        np.array(U * S).reshape((dO, dI, dK), order='F').transpose((2, 0, 1))
+    )
     return [
         Qobj(x,
              dims=[outdims, indims],
@@ -287,13 +290,11 @@ def _generalized_kraus(q_oper, threshold=1e-10):
             " (superrep ", repr(q_oper.superrep), ")."
         ]))
 
-    # Remember the shape of the underlying space,
-    # as we'll need this to make Kraus operators later.
-    dL, dR = int(np.sqrt(q_oper.shape[0])), int(np.sqrt(q_oper.shape[1]))
-    # Also remember the dims breakout.
-    out_dims, in_dims = q_oper.dims
-    out_left, out_right = out_dims
-    in_left, in_right = in_dims
+    # Remember the dims breakout and the shape of the underlying spaces,
+    # as we'll need this to make Kraus operators later. The Choi matrix
+    # acts on (input space) x (output space), see `to_choi`.
+    in_dims, out_dims = q_oper.dims[0]
+    dI, dO = int(np.prod(in_dims)), int(np.prod(out_dims))
 
     # Find the SVD.
     U, S, V = scipy.linalg.svd(q_oper.full())
@@ -312,9 +313,8 @@ def _generalized_kraus(q_oper, threshold=1e-10):
     # Next, we convert each of U and V into Kraus operators.
     # Finally, we want the Kraus index to be left-most so that we
     # can map over it when making Qobjs.
-    # FIXME: does not preserve dims!
-    kU = _svd_u_to_kraus(U, S, dL, dK, out_right, out_left)
-    kV = _svd_u_to_kraus(V, S, dL, dK, in_right, in_left)
+    kU = _svd_u_to_kraus(U, S, dO, dI, dK, in_dims, out_dims)
+    kV = _svd_u_to_kraus(V, S, dO, dI, dK, in_dims, out_dims)
 
     return kU, kV
 
@@ -325,20 +325,17 @@ def _choi_to_stinespring(q_oper, threshold=1e-10):
 
     assert len(kU) == len(kV)
     dK = len(kU)
-    dL = kU[0].shape[0]
-    dR = kV[0].shape[1]
-    # Also remember the dims breakout.
-    out_dims, in_dims = q_oper.dims
-    out_left, out_right = out_dims
-    in_left, in_right = in_dims
+    dO, dI = kU[0].shape
+    # Also remember the dims breakout: Choi dims are [[in, out], [in, out]].
+    in_dims, out_dims = q_oper.dims[0]
 
-    A = Qobj(_data.zeros(dK * dL, dL),
-             dims=[out_left + [dK], out_right + [1]],
+    A = Qobj(_data.zeros(dK * dO, dI),
+             dims=[out_dims + [dK], in_dims + [1]],
              isherm=True,
              isunitary=False,
              copy=False)
-    B = Qobj(_data.zeros(dK * dR, dR),
-             dims=[in_left + [dK], in_right + [1]],
+    B = Qobj(_data.zeros(dK * dO, dI),
+             dims=[out_dims + [dK], in_dims + [1]],
              isherm=True,
              isunitary=False,
              copy=False)
@@ -348,8 +345,8 @@ def _choi_to_stinespring(q_oper, threshold=1e-10):
         B += tensor(KR, basis(dK, idx_kraus))
 
     # There is no input (right) Kraus index, so strip that off.
-    A.dims = [out_left + [dK], out_right]
-    B.dims = [in_left + [dK], in_right]
+    A.dims = [out_dims + [dK], in_dims]
+    B.dims = [out_dims + [dK], in_dims]
 
     return A, B
 
